@@ -102,7 +102,7 @@ pub fn seed_of(path: &str, n: u64, salt: u64) -> u64 {
 
 thread_local! {
     static LAST_PANIC: RefCell<Option<String>> = const { RefCell::new(None) };
-    static QUIET: RefCell<bool> = const { RefCell::new(false) };
+    static QUIET: RefCell<u32> = const { RefCell::new(0) };
 }
 
 pub fn install_panic_hook() {
@@ -123,7 +123,7 @@ pub fn install_panic_hook() {
         } else {
             "<non-string panic>".to_string()
         };
-        let quiet = QUIET.try_with(|q| *q.borrow()).unwrap_or(false);
+        let quiet = QUIET.try_with(|q| *q.borrow() > 0).unwrap_or(false);
         let _ = LAST_PANIC.try_with(|p| *p.borrow_mut() = Some(format!("{} @ {}", msg, loc)));
         if !quiet {
             default(info);
@@ -133,13 +133,44 @@ pub fn install_panic_hook() {
 
 /// Runs `f` with panics captured; returns Err(description) on panic.
 pub fn guarded<R>(f: impl FnOnce() -> R) -> Result<R, String> {
-    QUIET.with(|q| *q.borrow_mut() = true);
+    QUIET.with(|q| *q.borrow_mut() += 1);
     LAST_PANIC.with(|p| *p.borrow_mut() = None);
     let r = catch_unwind(AssertUnwindSafe(f));
-    QUIET.with(|q| *q.borrow_mut() = false);
+    QUIET.with(|q| *q.borrow_mut() -= 1);
     match r {
         Ok(v) => Ok(v),
         Err(_) => Err(LAST_PANIC.with(|p| p.borrow_mut().take()).unwrap_or_else(|| "panic".into())),
+    }
+}
+
+/// Holds a value (a dirty Stream handle, typically) that must not run its
+/// destructor while a panic unwinds: Stream::drop writes back buffered data
+/// and a second panic inside a destructor would abort the whole process.
+pub struct NoDropOnPanic<T>(pub Option<T>);
+
+impl<T> NoDropOnPanic<T> {
+    pub fn new(v: T) -> Self {
+        NoDropOnPanic(Some(v))
+    }
+}
+impl<T> std::ops::Deref for NoDropOnPanic<T> {
+    type Target = T;
+    fn deref(&self) -> &T {
+        self.0.as_ref().unwrap()
+    }
+}
+impl<T> std::ops::DerefMut for NoDropOnPanic<T> {
+    fn deref_mut(&mut self) -> &mut T {
+        self.0.as_mut().unwrap()
+    }
+}
+impl<T> Drop for NoDropOnPanic<T> {
+    fn drop(&mut self) {
+        if std::thread::panicking() {
+            if let Some(v) = self.0.take() {
+                std::mem::forget(v);
+            }
+        }
     }
 }
 
@@ -333,7 +364,7 @@ pub fn exec<F: Read + Write + Seek>(comp: &mut CompoundFile<F>, op: &Op, model: 
             let data = pattern(seed_of(p, *n as u64, 1), *n);
             let mut created_ok = false;
             let (out, _) = outcome_of(guarded(|| -> io::Result<()> {
-                let mut s = comp.create_stream(p)?;
+                let mut s = NoDropOnPanic::new(comp.create_stream(p)?);
                 created_ok = true;
                 write_all_flush(&mut s, &data)
             }));
@@ -436,7 +467,7 @@ fn stream_op<F: Read + Write + Seek>(
     twin: impl FnOnce(&mut Vec<u8>) -> Result<(), EKind>,
 ) -> Step {
     let (out, _) = outcome_of(guarded(|| -> io::Result<()> {
-        let mut s = comp.open_stream(p)?;
+        let mut s = NoDropOnPanic::new(comp.open_stream(p)?);
         real(&mut s)
     }));
     let expected: Result<(), Vec<EKind>> = match model.lookup(p) {
